@@ -114,6 +114,29 @@ COMPR = [
     ("product", "list set", "[[x, y] for x in c for y in d]", "def r = []; for x in c do for y in d do append(r, [x, y]) end end; r"),
     ("product-if", "list", "[x + y for x in c for y in d if x < y]",
      "def r = []; for x in c do for y in d do if x < y then append(r, x + y) end end; r"),
+    ("product-values-second", "map", "[[x, y] for x in keys c for y in values c]",
+     "def r = []; for x in keys c do for y in values c do append(r, [x, y]) end end; r"),
+    ("product-entries-second", "map", "[[x, y[1]] for x in values c for y in entries c]",
+     "def r = []; for x in values c do for y in entries c do append(r, [x, y[1]]) end end; r"),
+    ("product-keys-second", "map", "[x + y for x in values c for y in keys c if x > y]",
+     "def r = []; for x in values c do for y in keys c do if x > y then append(r, x + y) end end; r"),
+    ("product-list-values", "map", "[[x, y] for x in [1, 2, 3] for y in values c]",
+     "def r = []; for x in [1, 2, 3] do for y in values c do append(r, [x, y]) end end; r"),
+    ("set-product-values", "map", "<<[x, y] for x in keys c for y in values c>>",
+     "def r = <<>>; for x in keys c do for y in values c do append(r, [x, y]) end end; r"),
+    ("parallel-values", "map", "[[x, y] for x in keys c also for y in values c]",
+     "def r = []; def ks = [k for k in keys c]; def vs = [v for v in values c]; "
+     "for i in range(length(ks)) do append(r, [ks[i], vs[i]]) end; r"),
+    ("parallel-entries", "map", "[[x, y[0]] for x in values c also for y in entries c]",
+     "def r = []; def vs = [v for v in values c]; def es = [e for e in entries c]; "
+     "for i in range(length(vs)) do append(r, [vs[i], es[i][0]]) end; r"),
+    ("set-parallel-keys", "map", "<<x + y for x in keys c also for y in values c>>",
+     "def r = <<>>; def ks = [k for k in keys c]; def vs = [v for v in values c]; "
+     "for i in range(length(ks)) do append(r, ks[i] + vs[i]) end; r"),
+    ("product-string", "string", "[x + y for x in c for y in c]",
+     "def r = []; for x in c do for y in c do append(r, x + y) end end; r"),
+    ("product-set-second", "set", "[[x, y] for x in [7, 8] for y in c]",
+     "def r = []; for x in [7, 8] do for y in c do append(r, [x, y]) end end; r"),
     ("parallel", "list", "[[x, y] for x in c also for y in c2]",
      "def r = []; for i in range(length(c)) do append(r, [c[i], c2[i]]) end; r"),
     ("set", "list set", "<<x % 2 for x in c>>", "def r = <<>>; for x in c do append(r, x % 2) end; r"),
